@@ -239,6 +239,11 @@ func acOne(c acCase, tr *traceWriter) {
 		req.URL.RawQuery = "zz=%zz&" + req.URL.RawQuery + "&a;b=1&%gg=2"
 		req.URL.RawQuery = strings.ReplaceAll(req.URL.RawQuery, "&&", "&")
 	}
+	if strings.HasPrefix(c.Fn, "Query") && (len(c.Raw)+len(c.Def)+2*len(c.Fn))%4 == 1 {
+		// neighbours whose KEYS resemble the one asked for (list spellings of other frameworks, other case, padded):
+		// they are other keys
+		req.URL.RawQuery = strings.TrimPrefix(req.URL.RawQuery+"&k[]=n1&k%5B%5D=n2&K=n3&k%20=n4&k.=n5&kk=n6&k[0]=n7", "&")
+	}
 	if rewrite {
 		realQuery = req.URL.RawQuery
 		req.URL.RawQuery = "k=41&k=stale&other=1"
